@@ -56,6 +56,7 @@ func cmdRun(args []string) {
 	harness := fs.String("harness", "", "harness function")
 	workers := fs.Int("workers", 8, "workers")
 	models := fs.String("models", "", "comma-separated model import paths")
+	stepLimit := fs.Int64("steps", 0, "step limit per path (default 20M)")
 	verbose := fs.Bool("v", false, "verbose")
 	unwind := fs.Int("unwind", 64, "unwinding cap")
 	sched := fs.Bool("sched", false, "scheduler mode")
@@ -102,7 +103,7 @@ func cmdRun(args []string) {
 			ka[k] = true
 		}
 	}
-	ex := sym.NewExplorer(prog.Prog, sym.Config{Harness: fn, Params: params, Workers: *workers, Verbose: *verbose, UnwindCap: *unwind, Scheduler: *sched, MapOrderNondet: *maporder, KnownActive: ka, SolverName: *solverName, SmtLog: *smtlog, MaxPreempt: *preempt, MaxPaths: *maxPaths, Deadline: time.Now().Add(time.Duration(*timeoutS) * time.Second)})
+	ex := sym.NewExplorer(prog.Prog, sym.Config{Harness: fn, Params: params, Workers: *workers, Verbose: *verbose, UnwindCap: *unwind, Scheduler: *sched, MapOrderNondet: *maporder, KnownActive: ka, SolverName: *solverName, SmtLog: *smtlog, MaxPreempt: *preempt, MaxPaths: *maxPaths, StepLimit: *stepLimit, Deadline: time.Now().Add(time.Duration(*timeoutS) * time.Second)})
 	if *cpuprof != "" {
 		f, _ := os.Create(*cpuprof)
 		pprof.StartCPUProfile(f)
